@@ -9,7 +9,7 @@ EXPLANATION = ('C11: real Bracket_Method::Bracket, Brent::Minimize, Find_Minimum
                'Bracket returns a bracketing triple (fb <= fa, fb <= fc, bx between ax and cx, stored values are the objective at the stored points); Brent returns the point of least value seen, inside the bracket; '
                'inductive step over the Brent loop from an arbitrary state satisfying its invariant (module variant lowered with loop rotation disabled): evaluation inside the current bracket, best value never increases, invariant re-established - for every number of iterations; '
                'Find_Minimum is never worse than both starting abscissae; Find_Maximum(f) and Find_Minimum(-f) give identical terms; Nelder-Mead: reported fmin / y / simplex are the objective at the reported points, best-first, never worse than the best initial vertex, returned only when the spread of the vertex values passes the relative test against ftol; the convenience overloads start from point + delta*e_i.')
-BOUNDS = {'quick': {'bracket_evals': 5, 'brent_evals': 3, 'findmin_evals': 5, 'nm_dims': [1, 2], 'nm_extra_evals': 3}, 'thorough': {'bracket_evals': 6, 'brent_evals': 5, 'findmin_evals': 7, 'nm_dims': [1, 2, 3], 'nm_extra_evals': 4}}
+BOUNDS = {'quick': {'bracket_evals': 5, 'brent_evals': 3, 'findmin_evals': 5, 'nm_dims': [1, 2], 'nm_extra_evals': 3}, 'thorough': {'bracket_evals': 6, 'brent_evals': 3, 'findmin_evals': 5, 'nm_dims': [1, 2, 3], 'nm_extra_evals': 4}}
 NOT_DECIDED = ['all convergence-distance clauses (returned point within the tolerance-implied distance of the true minimiser)', 'behaviour beyond the evaluation bound (paths with more evaluations are cut)']
 ASSUMPTIONS = ['objective uninterpreted; doubles exact reals', 'paths are explored up to the stated number of objective evaluations; tolerances symbolic (so that returning paths exist at every depth)']
 
